@@ -1,11 +1,14 @@
 import Babble.Proofs.PeerSets
 import Babble.Proofs.HGBlocks
+import Babble.Proofs.HGTable
 /-! # C10 — the validator-set history is a replayable function of the committed blocks
     `buildTable` is what the commit callback (`core.processAcceptedInternalTransactions` +
     `PeerSetCache.Set`) does block after block; `peersAtTbl` is `PeerSetCache.Get`; `replay` is the
     specification.  The activation delay is the regenerated `Gen.effectiveRound` (round received + 6).
     `Increasing` (strictly increasing, non-negative round received) is what C02 gives for delivered
-    blocks.
+    blocks — since `HG.blocks_rr_increasing` this is a theorem about the operational model, and
+    `node_history_is_replay` / `node_validators_are_replay` state the property for every reachable
+    state of a node started from genesis, without that hypothesis.
 
     PARTIAL: "the set a node *uses* for round r" also includes values memoised before an entry
     existed (round / witness of an event divided before the block carrying the change was committed).
@@ -73,6 +76,32 @@ theorem block_peers (s : St) (r : Int) (ri : RoundInfo) : (s.getFrame r ri).1.pe
 theorem same_blocks_same_history (genesis : List Nat) (bs : List PBlock) (hinc : Increasing bs) (r : Int) (hr : 0 ≤ r)
     (t₁ t₂ : List (Int × List Nat)) (h₁ : t₁ = (buildTable genesis bs).1) (h₂ : t₂ = (buildTable genesis bs).1) :
     peersAtTbl t₁ r = peersAtTbl t₂ r := by rw [h₁, h₂]
+
+/-- **node_history_is_replay**: in every reachable state of a node started from genesis (any sequence
+    of insertion attempts of fresh events), the validator set it looks up for round r is the genesis
+    set modified, in block order, by exactly the accepted receipts of its delivered blocks with round
+    received + 6 ≤ r -/
+theorem node_history_is_replay (genesis : List Nat) (es : List Ev) (hes : ∀ e ∈ es, e.round = none)
+    (r : Int) (hr : 0 ≤ r) :
+    (runAll (St.init genesis) es).peersAt r = replay genesis ((runAll (St.init genesis) es).blocks.map pb) r := by
+  have ht := runAll_tbl genesis _ es (init_tbl genesis)
+  have hinc := runAll_increasing genesis es hes
+  have := table_is_replay genesis _ hinc r hr
+  unfold St.peersAt
+  rw [← this]
+  have : (runAll (St.init genesis) es).peerSets = (buildTable genesis ((runAll (St.init genesis) es).blocks.map pb)).1 :=
+    congrArg (·.1) ht
+  rw [this]
+
+/-- … and its latest validator set (`core.validators`) is the genesis set with every accepted
+    change of its delivered blocks applied -/
+theorem node_validators_are_replay (genesis : List Nat) (es : List Ev) (hes : ∀ e ∈ es, e.round = none) :
+    (runAll (St.init genesis) es).validators = replayAll genesis ((runAll (St.init genesis) es).blocks.map pb) := by
+  have ht := runAll_tbl genesis _ es (init_tbl genesis)
+  have hinc := runAll_increasing genesis es hes
+  have := validators_are_replay genesis _ hinc
+  rw [← this]
+  exact congrArg (·.2) ht
 
 /-- non-vacuity: genesis {0,1,2}; block at round 4 adds 3, block at round 9 removes 1 -/
 example : (buildTable [0, 1, 2] [(4, [(true, 3)]), (9, [(false, 1)])]).1 = [(0, [0, 1, 2]), (10, [0, 1, 2, 3]), (15, [0, 2, 3])] := by
